@@ -99,7 +99,9 @@ def polynomial_from_attributes(
         for key in poly.keys:
             poly.values[key] = 0
     elif poly.dtype in COMPILED_DTYPES and all(
-        coefficient.dtype == poly.dtype and coefficient.flags.writeable
+        coefficient.dtype == poly.dtype
+        # non-contiguous data is copied by ravel; contiguous data must be writable.
+        and (not coefficient.flags.c_contiguous or coefficient.flags.writeable)
         for coefficient in coefficients
     ):
         numpoly.cfrom_attributes(coefficients, poly.values.ravel())
